@@ -187,6 +187,24 @@ func genLive(t *rapid.T) LiveCase {
 	}
 	// base.A and base.B are related the way the pairs of the main check are (often equal, often
 	// through a coercion); the third value is, most often, unequal to the compared one
+	if d, w, _ := ref(base.A, base.B); d && !w && base.A.K != "nil" && rapid.IntRange(0, 2).Draw(t, "partner") > 0 {
+		// an unequal pair says little here: compare with a partner that equals A instead
+		base.B = base.A.clone()
+		if base.A.isNum() {
+			switch rapid.IntRange(0, 3).Draw(t, "how") {
+			case 0:
+				base.B = otherKind(base.A)
+			case 1:
+				if !(base.A.K == "float" && (math.IsNaN(base.A.f()) || math.IsInf(base.A.f(), 0))) {
+					base.B = vStr(spell(t, base.A))
+				}
+			}
+		} else if base.A.K == "str" {
+			if cl, n := numeral(base.A.S); (cl == "int" || cl == "float") && rapid.Bool().Draw(t, "asnum") {
+				base.B = n
+			}
+		}
+	}
 	switch uniform(t, 8, "lshape") {
 	case 0, 1, 2:
 		c.Shape = "old-related-to-ret"
